@@ -404,7 +404,7 @@ func checkC28(r *mon.Run) {
 		return
 	}
 	st := &c28Stats{}
-	n := r.Pick(48, 800)
+	n := r.Pick(80, 800)
 	runWorkload(r, n, func(c *call) { judgeCallC28(r, c, st) })
 	r.Extra("segid", map[string]int64{"router_rule_match": st.segidMatch.Load(), "router_rule_mismatch": st.segidMismatch.Load()})
 	r.Extra("topologies", n)
